@@ -1,6 +1,8 @@
 import RsModel.Lemmas.Codec
 import RsModel.Lemmas.DeclMap
 import RsModel.Lemmas.ModeCold
+import RsModel.Lemmas.StrictIn
+import RsModel.Lemmas.ReplaceOrig
 /-!
 # C11 — produced source maps and chunk streams are well-formed
 -/
@@ -122,5 +124,21 @@ theorem c11_map_positions (s : Src) (h : s.ModeHypC) (hn : s.ids.Nodup) (σ : St
   rw [mapOfEvs_mappings _ sm hm, decode_encode _ hsmall (linesOK_of_sorted _ 1 0 hm3.sorted)]
   have hsub := keptFrom_sublist (chunkMs (s.stream ⟨true, true⟩ σ).1.evs) {}
   exact ⟨sortedFrom_sublist _ _ 1 0 hm3.sorted hsub, fun m hmem => finOK_ms _ _ b7 m (hsub.subset hmem)⟩
+
+
+/-- **mapped segments of `map()` lie strictly before the end of `source()`** (columns = true, domain of C03, cold caches): every
+decoded segment that carries an original location stands at the position of a *character* of `source()` — the position reached
+after a proper prefix — so it governs at least one character and none stands at or after the end.  (Unmapped 1-field segments
+only close a mapping; for them `c11_map_positions` gives a position of `source()`, possibly its end.) -/
+theorem c11_map_before_end (s : Src) (h : s.ModeHypC) (hn : s.ids.Nodup) (σ : Store) (hc : Cold σ s.ids) (final : Bool)
+    (hsmall : ∀ m ∈ chunkMs (s.stream ⟨true, true⟩ σ).1.evs, m.small) (sm : SMap) (hm : (getMap s ⟨true, final⟩ σ).1 = some sm) :
+    ∀ m ∈ decode sm.mappings, m.orig.isSome = true → ∃ k, k < s.src.length ∧ adv startPos (s.src.take k) = ⟨m.gl, m.gc⟩ := by
+  have hm3 := Src.m3c s h hn σ σ hc hc
+  simp only [getMap] at hm
+  rw [mapOfEvs_mappings _ sm hm, decode_encode _ hsmall (linesOK_of_sorted _ 1 0 hm3.sorted)]
+  intro m hmem ho
+  have hsub := keptFrom_sublist (chunkMs (s.stream ⟨true, true⟩ σ).1.evs) {}
+  obtain ⟨t, ht⟩ := chunkMs_mem_ev _ m (hsub.subset hmem)
+  exact Src.strictC s h hn σ hc t m ht ho
 
 end Rs
